@@ -149,6 +149,20 @@ func c06Trees(w *fw.Worker) []*pt.Prog {
 		"i := 0\nwhile i < 3\n    i = i + 1\n    if i == 2\n        break\n    end\nend\nprint i [1]+[2] [0]*3 []+[1] \"a\"+\"b\" \"a\"<\"b\" ([] == []) {} == {}\n",
 		"test 1 1\ntest true\nprintf \"%v %s\\n\" 1 \"a\"\nr := read\nprint r (str2num \"1\") err errmsg (sprint 1 2) (join [1 2] \",\")\n",
 	}
+	// word operators in whitespace-sensitive positions (call arguments, array elements, map values, range arguments): built as trees,
+	// because a parsed tree keeps the parentheses as Group nodes and would never reach the printer's tight and/or layouts
+	{
+		a, b := pt.V("a"), pt.V("b")
+		and, or := pt.Bin("and", a, b), pt.Bin("or", pt.Index{X: pt.V("fl"), I: pt.N(0)}, pt.Unary{Op: "!", X: b})
+		mixed := pt.Bin("or", pt.Bin("==", pt.S("x"), pt.S("y")), pt.Bin("and", a, pt.Bin("<", pt.N(1), pt.N(2))))
+		out = append(out, &pt.Prog{Stmts: []pt.Stmt{
+			pt.InferDecl{Name: "a", X: pt.B(true)}, pt.InferDecl{Name: "b", X: pt.B(false)}, pt.InferDecl{Name: "fl", X: pt.A(pt.B(true), pt.B(false))},
+			pt.Print(and, or, mixed),
+			pt.InferDecl{Name: "cs", X: pt.A(or, and)}, pt.InferDecl{Name: "mp", X: pt.M("k", and, "j", mixed)},
+			pt.Print(pt.V("cs"), pt.V("mp"), pt.C("len", pt.A(and))),
+			pt.If{Conds: []pt.Expr{and, or}, Blocks: [][]pt.Stmt{{pt.Print(pt.S("p"))}, {pt.Print(pt.S("q"), mixed)}}},
+		}})
+	}
 	srcs := append(append([]string(nil), corpus.Seeds...), exprProgs...)
 	for _, s := range srcs {
 		prog, _, _ := run.Parse(s)
